@@ -2,6 +2,7 @@ package main
 
 import (
 	"go/types"
+	"strconv"
 	"strings"
 
 	"golang.org/x/tools/go/ssa"
@@ -122,6 +123,7 @@ func runC20(c *Ctx) {
 	// --- H4 file hashing delegates ------------------------------------------
 	c.c20FileHash()
 	c.c20NoHasherInPackageState()
+	c.c20DigestsComeFromTheHasher()
 }
 
 // c20Method checks H1 and H2 in one method of hashingAlgo; returns the number
@@ -709,5 +711,71 @@ func (c *Ctx) c20NoHasherInPackageState() {
 	}
 	if n == 0 {
 		c.violate("H7", "hashing/no-hashing-call", "-", "no function of package hashing works with a hasher any more")
+	}
+}
+
+// c20DigestsComeFromTheHasher (H8): "the digest returned for a content equals the reference digest of the standard
+// implementation of the selected algorithm — for every content, the empty one included". The text helpers of the package
+// return what the hasher computed, or "" where they failed: never an entry of a table of digests worked out beforehand (one
+// wrong constant — BLAKE2b-512 cut to 64 characters for BLAKE2b-256 — is a wrong digest for ever, for one content and one
+// algorithm). Decided for the package-level functions of package hashing that return a string: every value they return
+// derives from a call, or is the empty string; none comes out of a map, a package-level variable or a non-empty constant.
+func (c *Ctx) c20DigestsComeFromTheHasher() {
+	c.rule("H8", "the package-level text helpers of package hashing return what a hasher computed, or the empty string: no digest comes out of a table, a package-level variable or a constant", 3)
+	for _, f := range c.srcFuncs("hashing") {
+		if f.Parent() != nil || f.Blocks == nil || f.Signature.Recv() != nil {
+			continue
+		}
+		res := f.Signature.Results()
+		if res.Len() == 0 || res.At(0).Type().String() != "string" || !strings.HasPrefix(f.Name(), "Calculate") {
+			continue
+		}
+		bad := ""
+		allInstrs(f, func(in ssa.Instruction) {
+			r, ok := in.(*ssa.Return)
+			if !ok || len(r.Results) == 0 {
+				return
+			}
+			seen := map[ssa.Value]bool{}
+			var walk func(v ssa.Value, d int)
+			walk = func(v ssa.Value, d int) {
+				if v == nil || seen[v] || d > 20 {
+					return
+				}
+				seen[v] = true
+				switch x := v.(type) {
+				case *ssa.Const:
+					if s, isS := constString(x); isS && s != "" {
+						bad = "the constant " + strconv.Quote(s) + " (" + c.ipos(r) + ")"
+					}
+				case *ssa.Lookup:
+					bad = "a map lookup (" + c.pos(x.Pos()) + ")"
+				case *ssa.Global:
+					bad = "the package-level variable " + x.Name()
+				case *ssa.Phi:
+					for _, e := range x.Edges {
+						walk(e, d+1)
+					}
+				case *ssa.Extract:
+					walk(x.Tuple, d+1)
+				case *ssa.UnOp:
+					walk(x.X, d+1)
+				case *ssa.IndexAddr:
+					walk(x.X, d+1)
+				case *ssa.Index:
+					walk(x.X, d+1)
+				case *ssa.Alloc:
+					for _, st := range storesToDeep(x) {
+						walk(st, d+1)
+					}
+				case *ssa.Call:
+					// what a call returns is its own business (the hashers are held to H2, the helpers of this package to this rule)
+				}
+			}
+			walk(r.Results[0], 0)
+		})
+		c.FuncsSeen[fname(f)] = true
+		c.check(bad == "", "H8", fname(f)+"/computed", c.pos(f.Pos()), "every value returned is computed by a call, or is the empty string",
+			fname(f)+" can return "+bad+" instead of what the hasher computes: a digest taken from a table is right only as long as every entry of the table is — a shortcut for the empty text with one wrong entry gives, for that algorithm and that content, a digest that is not the reference digest, while the same bytes through the reader or the file path hash correctly")
 	}
 }
